@@ -140,29 +140,34 @@ Definition print_block (b : block) : str :=
 
 (* ---------- meaning (YAML 1.1, every scalar a string) ---------- *)
 
-(* YAML 1.1 section 5.6 escape sequences (single character ones) *)
-Definition yaml_escape (c : N) : option N :=
-  match c with
-  | 48 => Some 0        (* \0 *)
-  | 97 => Some 7        (* \a *)
-  | 98 => Some 8        (* \b *)
-  | 116 => Some 9       (* \t *)
-  | 9 => Some 9         (* \<TAB> *)
-  | 110 => Some 10      (* \n *)
-  | 118 => Some 11      (* \v *)
-  | 102 => Some 12      (* \f *)
-  | 114 => Some 13      (* \r *)
-  | 101 => Some 27      (* \e *)
-  | 32 => Some 32       (* \<space> *)
-  | 34 => Some 34       (* backslash dquote *)
-  | 47 => Some 47       (* \/ *)
-  | 92 => Some 92       (* \\ *)
-  | 78 => Some 133      (* \N next line *)
-  | 95 => Some 160      (* \_ non-breaking space *)
-  | 76 => Some 8232     (* \L line separator *)
-  | 80 => Some 8233     (* \P paragraph separator *)
-  | _ => None
+(* YAML 1.1 section 5.6 escape sequences (single character ones): escape character, meaning *)
+Definition yaml_escapes : list (N * N) :=
+  [ (48, 0);       (* \0 null *)
+    (97, 7);       (* \a bell *)
+    (98, 8);       (* \b backspace *)
+    (116, 9);      (* \t tab *)
+    (9, 9);        (* backslash TAB *)
+    (110, 10);     (* \n line feed *)
+    (118, 11);     (* \v vertical tab *)
+    (102, 12);     (* \f form feed *)
+    (114, 13);     (* \r carriage return *)
+    (101, 27);     (* \e escape *)
+    (32, 32);      (* backslash space *)
+    (34, 34);      (* backslash dquote *)
+    (47, 47);      (* \/ slash *)
+    (92, 92);      (* backslash backslash *)
+    (78, 133);     (* \N next line *)
+    (95, 160);     (* \_ non-breaking space *)
+    (76, 8232);    (* \L line separator *)
+    (80, 8233) ].  (* \P paragraph separator *)
+
+Fixpoint lookup (c : N) (l : list (N * N)) : option N :=
+  match l with
+  | [] => None
+  | (k, v) :: l' => if c =? k then Some v else lookup c l'
   end.
+
+Definition yaml_escape (c : N) : option N := lookup c yaml_escapes.
 
 Definition hexval1 (c : N) : N :=
   if c <=? 57 then c - 48 else if c <=? 70 then c - 55 else c - 87.
